@@ -4,4 +4,4 @@ From V.Ts Require Import Model Glue.
 Definition run_case := V.Ts.Glue.run_case.
 Definition prop_ok := prop_ok_C08.
 (* No known-finding classes: every failing case is a violation. *)
-Definition known_class (case trace : list N) : N := 0%N.
+Definition known_class := known_class_C08.
